@@ -109,6 +109,8 @@ type Channel struct {
 	ReturnChar        []byte
 
 	done chan struct{}
+	// readLoopDone is closed by the read loop when it exits (whatever the reason).
+	readLoopDone chan struct{}
 
 	Q              *util.Queue
 	Errs           chan error
@@ -139,6 +141,8 @@ func (c *Channel) Open() (reterr error) {
 	c.l.Debug("starting channel read loop")
 
 	simhook.Yield("chan.open.spawn")
+
+	c.readLoopDone = make(chan struct{})
 
 	go c.read()
 
@@ -204,7 +208,13 @@ func (c *Channel) Close() error {
 			simhook.Enter("chan.close.helper")
 			simhook.Yield("chan.close.helper")
 
-			c.done <- struct{}{}
+			select {
+			case c.done <- struct{}{}:
+			case <-c.readLoopDone:
+				// the read loop exited on its own (end of stream, or it took the done signal of
+				// an earlier Close) -- there is nobody left to signal, don't wait (and leak this
+				// goroutine) for a receiver that will never come
+			}
 		}()
 	} else {
 		close(ch)
